@@ -167,6 +167,20 @@ wrapped["stdlib"] = r'''
     }
 '''
 
+wrapped["unistd"] = r'''
+    use iceoryx2_pal_concurrency_sync::sim;
+    use crate::posix::types::*;
+    // ids derived from the pid (node ids, owner ids in shared memory) must be a function of the seed
+    pub unsafe fn getpid() -> pid_t {
+        if sim::active() { return sim::virtual_pid() as pid_t; }
+        unsafe { real::getpid() }
+    }
+    pub unsafe fn gethostpid() -> pid_t {
+        if sim::active() { return sim::virtual_pid() as pid_t; }
+        unsafe { real::gethostpid() }
+    }
+'''
+
 wrapped["sched"] = r'''
     use iceoryx2_pal_concurrency_sync::sim;
     use crate::posix::types::*;
